@@ -176,6 +176,10 @@ NEEDS_LEN = {'invert', 'lshift0', 'rshift0', 'rshift1', 'cut-whole', 'and-ones',
 EXT_ROUTES = {            # external buffer kind -> {route: f(ext, tc)}
     'bytearray': {'ctor': lambda x, tc: tc(x), 'bytes=': lambda x, tc: tc(bytes=x), 'bytes=off': lambda x, tc: tc(bytes=x, offset=0, length=len(x) * 8)},
     'memoryview': {'ctor': lambda x, tc: tc(x), 'bytes=': lambda x, tc: tc(bytes=x)},
+    # views that cannot be written through, or that cover only part of the owner's memory: the owner can still write
+    'memoryview-ro': {'ctor': lambda x, tc: tc(x), 'bytes=': lambda x, tc: tc(bytes=x)},
+    'memoryview-part': {'ctor': lambda x, tc: tc(x), 'bytes=': lambda x, tc: tc(bytes=x)},
+    'bytearray-sub': {'ctor': lambda x, tc: tc(x), 'bytes=': lambda x, tc: tc(bytes=x)},
     'array': {'ctor': lambda x, tc: tc(x)},
     'bitarray': {'ctor': lambda x, tc: tc(x), 'bitarray=': lambda x, tc: tc(bitarray=x), 'bitarray=off': lambda x, tc: tc(bitarray=x, offset=0)},
     'BytesIO': {'ctor': lambda x, tc: tc(x), 'ctor-off': lambda x, tc: tc(x, offset=0)},
@@ -192,7 +196,7 @@ def read_member(e):
         return o.to01()
     if k in ('bytearray',):
         return bytes(o).hex()
-    if k == 'memoryview':
+    if k in ('memoryview', 'memoryview-ro', 'memoryview-part', 'bytearray-sub'):
         return bytes(o).hex()
     if k == 'array':
         return o.tobytes().hex()
@@ -252,8 +256,12 @@ def mutate_ext(o, kind):
             o[0] ^= 0xff
         else:
             o.append(7)
-    elif kind == 'memoryview':
+    elif kind == 'bytearray-sub':
+        o[0] ^= 0xff
+    elif kind in ('memoryview', 'memoryview-ro'):
         o.obj[0] ^= 0xff
+    elif kind == 'memoryview-part':
+        o.obj[1] ^= 0xff            # the view starts at the owner's second byte
     elif kind == 'array':
         o[0] ^= 0xff
     elif kind == 'BytesIO':
@@ -267,6 +275,13 @@ def make_ext(kind, bits):
         return bytearray(raw)
     if kind == 'memoryview':
         return memoryview(bytearray(raw))
+    if kind == 'memoryview-ro':
+        return memoryview(bytearray(raw)).toreadonly()
+    if kind == 'memoryview-part':
+        v = memoryview(bytearray(b'\x5a' + raw + b'\xa5'))[1:-1]
+        return v.toreadonly() if len(raw) % 2 else v
+    if kind == 'bytearray-sub':
+        return util.BytearraySub(raw)
     if kind == 'array':
         return array.array('B', raw)
     if kind == 'bitarray':
@@ -569,7 +584,8 @@ def run(ctx):
     pairs(ctx)
     n = ctx.scale(12000, 200000)
     for i in range(n):
-        rk = ctx.rng.choice(['str', 'str', 'bin', 'bytearray', 'memoryview', 'bitarray', 'array', 'BytesIO'])
+        rk = ctx.rng.choice(['str', 'str', 'bin', 'bytearray', 'memoryview', 'bitarray', 'array', 'BytesIO', 'memoryview-ro',
+                             'memoryview-part', 'bytearray-sub'])
         bits = rb(ctx.rng, ctx.rng.choice([8, 16, 24, 64]))
         case = {'root': [rk, bits, ctx.rng.choice(TC)], 'steps': [], 'lsb0': i % 4 == 3}
         if rk == 'str' and ctx.rng.random() < 0.12:
